@@ -68,6 +68,11 @@ def pick(k: int, v: int) -> Callable[[int, int], int]:
     return h2
 
 @guppy
+def bumpa(a: array[int, 2], v: int) -> None:
+    result("b", v)
+    a[0] = a[0] + v
+
+@guppy
 def g3(a: int, b: float, c: bool) -> int:
     result("g", a)
     return a + 1 if c else a - 1
@@ -191,6 +196,22 @@ class G:
             if r.random() < 0.7:  # index without side effect (the effectful form is a known finding)
                 return f"xs[{r.randrange(3)}] {op}= {self.expr('int', d - 1)}"
             return f"xs[{self.idx(3)}] {op}= {self.expr('int', d - 1)}"
+        if c == 7 and r.random() < 0.5:
+            # nested places: the row index is evaluated once although the row is taken out and put
+            # back (element assignment into a row, lending a row to a mutating callee)
+            f = r.random()
+            if f < 0.2:
+                return f"mm[{self.idx(2)}][{r.randrange(2)}] = {self.expr('int', d - 1)}"
+            if f < 0.4:
+                return f"bumpa(mm[{self.idx(2)}], {self.expr('int', d - 1)})"
+            if f < 0.6:
+                # two subscript levels above the lent / assigned place
+                return f"bumpa(m3[{self.idx(2)}][{r.randrange(2)}], {self.expr('int', d - 1)})"
+            if f < 0.7:
+                return f"bumpa(m3[{r.randrange(2)}][{self.idx(2)}], {self.expr('int', d - 1)})"
+            if f < 0.8:
+                return f"m3[{self.idx(2)}][{r.randrange(2)}][{r.randrange(2)}] = {self.expr('int', d - 1)}"
+            return f'result("v{n}", mm[{self.idx(2)}][{self.idx(2)}])'
         if c == 7:
             return f'result("v{n}", xs[{self.expr("int", 1)} % 3])'
         if c == 8:
@@ -358,7 +379,7 @@ def judge_text(ctx, text, stmts):
     got = [(t, opy.norm_value(v)) for t, v in out.stream()]
     es, gs = split_segments(exp), split_segments(got)
     counters = {"statements_compared": 0,
-                "reporter_events": sum(1 for t, _ in exp if t in ("e", "g", "h"))}
+                "reporter_events": sum(1 for t, _ in exp if t in ("e", "g", "h", "b"))}
     viols = []
     shapes = []
     for i, st in enumerate(stmts):
@@ -431,14 +452,23 @@ def build(rng):
         g.k += 1
         stmts[i] = f'result("v{i}", t({g.k}, 1) + t({g.k + 1}, panic("boom{i}")) + t({g.k + 2}, 2))'
         g.k += 2
-    lines = ["@guppy", "def main() -> None:", "    xs = array(10, 20, 30)", "    acc = 1"]
+    lines = ["@guppy", "def main() -> None:", "    xs = array(10, 20, 30)", "    acc = 1",
+             "    mm = array(array(1, 2), array(3, 4))",
+             "    m3 = array(array(array(1, 2), array(3, 4)), array(array(5, 6), array(7, 8)))"]
     for i, s in enumerate(stmts):
         lines.append(f'    result("s", {i})')
         lines.append("    " + s)
     lines.append(f'    result("s", {n})')
     lines.append('    result("xs", xs)')
     lines.append('    result("acc", acc)')
-    stmts.append('result("xs", xs)\n    result("acc", acc)')
+    lines.append('    result("m0", mm[0])')
+    lines.append('    result("m1", mm[1])')
+    tail = ""
+    for i_ in range(2):
+        for j_ in range(2):
+            lines.append(f'    result("m3_{i_}{j_}", m3[{i_}][{j_}])')
+            tail += f'\n    result("m3_{i_}{j_}", m3[{i_}][{j_}])'
+    stmts.append('result("xs", xs)\n    result("acc", acc)\n    result("m0", mm[0])\n    result("m1", mm[1])' + tail)
     return HEADER + "\n".join(lines) + "\n", stmts
 
 
